@@ -155,9 +155,45 @@ pub fn history_lock_is_free(tree: &crate::AnyTree) -> bool {
     index_tree(tree).version_history.try_write().is_ok()
 }
 
+/// Plain-data view of a version: levels -> runs -> tables, blob files, GC statistics.
+#[derive(Clone)]
+pub struct VersionDump {
+    pub id: u64,
+    pub levels: Vec<Vec<Vec<crate::Table>>>,
+    pub blob_files: Vec<crate::BlobFile>,
+    /// `(blob file id, len, bytes, on_disk_bytes)`, sorted by id
+    pub gc_stats: Vec<(u64, usize, u64, u64)>,
+}
+
+fn dump_version(v: &crate::version::Version) -> VersionDump {
+    let mut blob_files: Vec<_> = v.blob_files.iter().cloned().collect();
+    blob_files.sort_by_key(crate::BlobFile::id);
+    let mut gc_stats: Vec<_> = v
+        .gc_stats()
+        .iter()
+        .map(|(id, e)| (*id, e.len, e.bytes, e.on_disk_bytes))
+        .collect();
+    gc_stats.sort_unstable();
+    VersionDump {
+        id: v.id(),
+        levels: v
+            .iter_levels()
+            .map(|lvl| lvl.iter().map(|run| run.iter().cloned().collect()).collect())
+            .collect(),
+        blob_files,
+        gc_stats,
+    }
+}
+
+/// The current version.
+pub fn dump_current(tree: &crate::AnyTree) -> VersionDump {
+    use crate::AbstractTree;
+    dump_version(&tree.current_version())
+}
+
 /// Version that a reader with snapshot `seqno` would resolve to.
-pub fn version_for_snapshot(tree: &crate::AnyTree, seqno: SeqNo) -> crate::version::Version {
-    index_tree(tree).get_version_for_snapshot(seqno).version
+pub fn dump_for_snapshot(tree: &crate::AnyTree, seqno: SeqNo) -> VersionDump {
+    dump_version(&index_tree(tree).get_version_for_snapshot(seqno).version)
 }
 
 /// IDs of tables currently hidden by running compactions.
@@ -219,8 +255,6 @@ pub fn id_counters(tree: &crate::AnyTree) -> (u64, u64) {
     let t = index_tree(tree);
     (t.table_id_counter.get(), t.blob_file_id_counter.get())
 }
-
-pub use crate::version::Version;
 
 /// Decodes a blob indirection: `(blob file id, offset, on-disk size, value size)`.
 pub fn decode_indirection(bytes: &[u8]) -> Option<(u64, u64, u32, u32)> {
